@@ -328,7 +328,7 @@ func (cw *c05World) canon() string {
 	for _, d := range cw.devs {
 		var ents []string
 		for _, e := range d.gc.MetadataStore().OpLog().Values().Slice() {
-			ev, _, err := openMetadataEntry(d.gc.MetadataStore().OpLog(), e, cw.g)
+			ev, _, err := vOpenMetadataEntry(d.gc.MetadataStore().OpLog(), e, cw.g)
 			vmust(err)
 			ents = append(ents, cw.describe(ev))
 		}
